@@ -50,11 +50,11 @@ pub fn parity_to_systematic(h: &SparseMatrix) -> Result<SparseMatrix, Error> {
     let mut h_new = SparseMatrix::new(n, m);
     let mut j0 = 0;
     for j in 0..n {
-        assert!(k < m - n);
         let mut found = false;
         for s in j0..m {
             if a[[j, s]] == GF2::zero() {
                 // Column does not "go down" on row echelon form. Place it at the current write point.
+                assert!(k < m - n);
                 for &u in h.iter_col(s) {
                     h_new.insert(u, k);
                 }
